@@ -85,6 +85,19 @@ fn corpus() -> Vec<LinearModel> {
     m.add_constraint(vec![1.0, 1.0], Comparison::LessOrEqual, 2000000.0);
     m.set_objective(vec![-1.0, -1.0], OptimizationType::Min);
     out.push(m);
+    // two badly scaled models on which the absolute 1e-5 tolerance of the ratio test / of the optimality test decides
+    let mut m = LinearModel::new();
+    m.add_variable("x", nn);
+    m.add_constraint(vec![1.0], Comparison::LessOrEqual, 0.000009);
+    m.add_constraint(vec![1000000.0], Comparison::LessOrEqual, 0.0);
+    m.set_objective(vec![-1.0], OptimizationType::Min);
+    out.push(m);
+    let mut m = LinearModel::new();
+    m.add_variable("x", nn);
+    m.add_constraint(vec![1.0], Comparison::LessOrEqual, 10000000.0);
+    m.add_constraint(vec![1.0], Comparison::LessOrEqual, 20000000.0);
+    m.set_objective(vec![-0.000005], OptimizationType::Min);
+    out.push(m);
     // Chvatal's cycling example with an unused variable, and with a never-binding row over a costless variable:
     // the anti-cycling branch must not take a column of zero reduced cost
     for relax in [false, true] {
